@@ -98,6 +98,9 @@ type interpreter struct {
 	curPath *PathResult
 	pdoms   map[*ssa.Function][]*ssa.BasicBlock
 	tmp     map[string]any
+	tmpPersist map[string]any
+	race    *raceMon
+	mergeSites map[*ssa.If]*[2]int
 	fresh   []rng
 	model     map[string]uint64
 	modelMemo map[int]uint64
@@ -169,6 +172,9 @@ func (fr *frame) get(key ssa.Value) value {
 
 // write performs a journaled slot write.
 func (i *interpreter) write(addr *value, v value) {
+	if i.race != nil && i.race.on {
+		i.raceNote(addr, true, nil)
+	}
 	if i.journaling {
 		i.journal = append(i.journal, jentry{addr: addr, old: *addr})
 	}
@@ -359,7 +365,19 @@ func visitInstr(fr *frame, instr ssa.Instruction) continuation {
 		fn, args := prepareCall(fr, &instr.Call)
 		if fn != nil {
 			pos := instr.Pos()
-			i.goq = append(i.goq, func() { call(i, nil, pos, fn, args) })
+			gid := 0
+			if i.race != nil && i.race.on {
+				i.race.nextG++
+				gid = i.race.nextG
+			}
+			i.goq = append(i.goq, func() {
+				if i.race != nil && i.race.on {
+					saved := i.race.curG
+					i.race.curG = gid
+					defer func() { i.race.curG = saved }()
+				}
+				call(i, nil, pos, fn, args)
+			})
 		}
 
 	case *ssa.MakeChan:
@@ -839,6 +857,7 @@ func newInterpreter(sh *Program) *interpreter {
 		varCount:  map[string]int{},
 		pdoms:     map[*ssa.Function][]*ssa.BasicBlock{},
 		stepLimit: 20_000_000,
+		tmpPersist: map[string]any{},
 	}
 	if runtimePkg := i.prog.ImportedPackage("runtime"); runtimePkg != nil {
 		i.runtimeErrorString = runtimePkg.Type("errorString").Object().Type()
